@@ -1,4 +1,9 @@
+pub mod arena;
+pub mod pool;
+pub mod proccap;
+pub mod procspec;
 pub mod sem;
+pub mod strings;
 
 use crate::Ctx;
 
@@ -6,6 +11,11 @@ pub fn dispatch(ctx: &mut Ctx) {
     match ctx.engine.as_str() {
         "sem" => sem::run(ctx),
         "gen" => sem::dump(ctx),
+        "strings" => strings::run(ctx),
+        "arena" => arena::run(ctx),
+        "pool" => pool::run(ctx),
+        "procspec" => procspec::run(ctx),
+        "proccap" => proccap::run(ctx),
         other => {
             eprintln!("unknown engine {other}");
             std::process::exit(2);
